@@ -38,6 +38,14 @@ def target_line_loop():
     if len(loops) != 1 or "offset < len(line)" not in ast.unparse(loops[0].test):
         raise core.CheckerError("anchor mismatch: expected one `while offset < len(line)` loop in _tokenize_line")
     loop = loops[0]
+    # the names of the locals are read off the code (a renamed local is not a changed behaviour)
+    V_OFFSET = loop.test.left.id if isinstance(loop.test, ast.Compare) and isinstance(loop.test.left, ast.Name) else None
+    rets = [n for n in info.node.body if isinstance(n, ast.Return) and isinstance(n.value, ast.Tuple) and len(n.value.elts) == 2 and isinstance(n.value.elts[0], ast.Name)]
+    params = [a.arg for a in info.node.args.args]
+    if V_OFFSET is None or len(rets) != 1 or len(params) != 3:
+        raise core.CheckerError("anchor mismatch: _tokenize_line(line, line_number, file_name) with `while <offset> < len(line)` and a final `return <tokens>, None` expected")
+    V_TOKENS = rets[0].value.elts[0].id
+    P_LINE, P_LINE_NUMBER, P_FILE = params
     eng = pyvc.Engine()
     eng.contract(error.error, lambda interp, f, loc, msg: ("ERR", loc, msg), "error.error")
     eng.contract(pt.SourceLocation, lambda interp, a, b, **k: ("LOC", a, b), "SourceLocation")
@@ -78,7 +86,7 @@ def target_line_loop():
         patterns = [SRec("T", {"regex": GObj("re%d" % j, methods={"match": mk_match(j)}), "symbol": None if j == none_at else "Sym%d" % j}) for j in range(nre)]
         it = pyvc.Interp(c, info)
         tokens = []
-        it.env = {"line": line, "line_number": SInt(ln), "file_name": "f.emb", "tokens": tokens, "offset": SInt(off),
+        it.env = {P_LINE: line, P_LINE_NUMBER: SInt(ln), P_FILE: "f.emb", V_TOKENS: tokens, V_OFFSET: SInt(off),
                   "LITERAL_TOKEN_PATTERNS": tuple(lits), "REGEX_TOKEN_PATTERNS": patterns}
         c.covered = True
         returned = None
@@ -103,36 +111,43 @@ def target_line_loop():
                 c.oblige("error-location-is-the-next-character", z3.And(pyvc.zint(loc[1][0]) == ln, pyvc.zint(loc[1][1]) == off + 1, pyvc.zint(loc[2][0]) == ln,
                                                                           pyvc.zint(loc[2][1]) == off + 2), detail=repr(loc)[:200])
             return
-        chosen = it.env["best_candidate"]
-        if isinstance(chosen, str):
-            c.oblige("a-candidate-was-chosen", chosen != "" and chosen in lits, detail=repr(chosen))
-            if chosen not in lits:
-                return
-            w = lits.index(chosen)
-            wlen, wsym, wtext = cands[w][2], '"' + chosen + '"', chosen
-            c.oblige("chosen-literal-matches", lit_m[w])
-        else:
-            c.oblige("a-candidate-was-chosen", isinstance(chosen, GStr) and chosen.tag[0] == "match", detail=repr(chosen))
-            if not (isinstance(chosen, GStr) and chosen.tag[0] == "match"):
-                return
-            j = chosen.tag[1]
-            w = len(lits) + j
-            wlen, wsym, wtext = cands[w][2], patterns[j].f["symbol"], chosen
-            c.oblige("chosen-regex-matches", re_m[j])
+        # no error: the iteration consumed `adv` characters and appended at most one token; the winner is identified from
+        # these observables only (not from the function's temporaries)
+        adv = pyvc.zint(it.env[V_OFFSET]) - off
         c.oblige("no-error-only-when-something-matches", best > 0)
-        c.oblige("chosen-is-a-longest-match", wlen == best)
-        c.oblige("ties-go-to-the-earliest-pattern", z3.And([cands[k][2] < wlen for k in range(w)]) if w else True)
-        c.oblige("progress:offset-advances-by-the-match-length", pyvc.zint(it.env["offset"]) == off + wlen)
-        c.oblige("progress:offset-strictly-increases-and-stays-inside-the-line", z3.And(pyvc.zint(it.env["offset"]) > off, pyvc.zint(it.env["offset"]) <= N))
-        if wsym is None:
-            c.oblige("no-token-for-a-None-symbol-pattern", tokens == [])
+        c.oblige("progress:offset-advances-by-the-longest-match-length", adv == best)
+        c.oblige("progress:offset-strictly-increases-and-stays-inside-the-line", z3.And(adv > 0, off + adv <= N))
+        c.oblige("at-most-one-token-per-iteration", len(tokens) <= 1, detail=repr(tokens)[:200])
+
+        def first_longest(w):
+            return z3.And([cands[w][2] == best] + [cands[k][2] < best for k in range(w)])
+        sym_of = ['"' + l + '"' for l in lits] + [p.f["symbol"] for p in patterns]
+        if not tokens:
+            silent = [w for w in range(len(cands)) if sym_of[w] is None]
+            c.oblige("no-token-only-when-the-winner-has-no-symbol", z3.Or([first_longest(w) for w in silent]) if silent else False)
+            return
+        if len(tokens) != 1:
+            return
+        tok = tokens[0]
+        okt = isinstance(tok, tuple) and tok[0] == "TOK"
+        c.oblige("token-shape", okt, detail=repr(tok)[:200])
+        if not okt:
+            return
+        text = tok[2]
+        if isinstance(text, str) and text in lits:
+            w = lits.index(text)
+        elif isinstance(text, GStr) and text.tag[0] == "match":
+            w = len(lits) + text.tag[1]
         else:
-            okt = len(tokens) == 1 and tokens[0][0] == "TOK" and tokens[0][1] == wsym and tokens[0][2] is wtext
-            c.oblige("one-token-with-the-winner's-symbol-and-text", okt, detail=repr(tokens)[:200])
-            if okt:
-                loc = tokens[0][3]
-                c.oblige("token-location-is-the-matched-slice", z3.And(pyvc.zint(loc[1][0]) == ln, pyvc.zint(loc[1][1]) == off + 1, pyvc.zint(loc[2][0]) == ln,
-                                                                     pyvc.zint(loc[2][1]) == off + wlen + 1), detail=repr(loc)[:200])
+            c.oblige("token-text-is-the-matched-text", False, detail=repr(text)[:200])
+            return
+        c.oblige("chosen-candidate-matches-here", lit_m[w] if w < len(lits) else re_m[w - len(lits)])
+        c.oblige("chosen-is-a-longest-match", cands[w][2] == best)
+        c.oblige("ties-go-to-the-earliest-pattern", z3.And([cands[k][2] < cands[w][2] for k in range(w)]) if w else True)
+        c.oblige("token-symbol-is-the-winner's", tok[1] == sym_of[w] and sym_of[w] is not None, detail="%r vs %r" % (tok[1], sym_of[w]))
+        loc = tok[3]
+        c.oblige("token-location-is-the-matched-slice", z3.And(pyvc.zint(loc[1][0]) == ln, pyvc.zint(loc[1][1]) == off + 1, pyvc.zint(loc[2][0]) == ln,
+                                                             pyvc.zint(loc[2][1]) == off + cands[w][2] + 1), detail=repr(loc)[:200])
     paths = eng.explore(harness)
     return pyvc.collect(paths, "_tokenize_line.loop-body"), sum(1 for p in paths if p.covered)
 
@@ -191,10 +206,31 @@ TARGETS = {"line_loop": target_line_loop}
 def _tokenize_slices():
     info = pyvc.load_function("compiler.front_end.tokenizer.tokenize")
     body = info.node.body
-    loops = [i for i, n in enumerate(body) if isinstance(n, ast.For) and "text.splitlines()" in ast.unparse(n.iter)]
+    loops = [i for i, n in enumerate(body) if isinstance(n, ast.For) and ".splitlines()" in ast.unparse(n.iter) and isinstance(n.target, ast.Name)]
     if len(loops) != 1:
-        raise core.CheckerError("anchor mismatch: expected one top-level `for line in text.splitlines()` loop in tokenize")
-    return info, body[loops[0]], body[loops[0] + 1:]
+        raise core.CheckerError("anchor mismatch: expected one top-level `for <line> in text.splitlines()` loop in tokenize")
+    loop, tail = body[loops[0]], body[loops[0] + 1:]
+    # names of the locals, read off the code: the token list is what the function finally returns, the indentation stack is
+    # the list initialised to [""], the line counter the variable initialised to 0 and incremented in the loop
+    names = {"line": loop.target.id}
+    for n in body[:loops[0]]:
+        if isinstance(n, ast.Assign) and len(n.targets) == 1 and isinstance(n.targets[0], ast.Name):
+            src = ast.unparse(n.value)
+            if src in ("['']", '[""]'):
+                names["indent_stack"] = n.targets[0].id
+            elif src == "0":
+                names["line_number"] = n.targets[0].id
+    rets = [n for n in tail if isinstance(n, ast.Return) and isinstance(n.value, ast.Tuple) and len(n.value.elts) == 2 and isinstance(n.value.elts[0], ast.Name)]
+    if rets:
+        names["tokens"] = rets[-1].value.elts[0].id
+    params = [a.arg for a in info.node.args.args]
+    if len(params) == 2:
+        names["text"], names["file_name"] = params
+    missing = [k for k in ("line", "indent_stack", "line_number", "tokens", "text", "file_name") if k not in names]
+    if missing:
+        raise core.CheckerError("anchor mismatch: tokenize(): cannot identify %s" % missing)
+    info.names = names
+    return info, loop, tail
 
 
 def target_indent_loop():
@@ -256,7 +292,8 @@ def target_indent_loop():
         eng.contract(tk._tokenize_line, lambda interp, l, n, f: (c.oblige("line-number-passed-on", pyvc.zint(n) == ln + 1), (ltoks, lerr))[1], "_tokenize_line")
         it = pyvc.Interp(c, info)
         tokens, stack = [], list(stack0)
-        it.env = {"line": line, "line_number": SInt(ln), "file_name": "f.emb", "tokens": tokens, "indent_stack": stack, "text": "unused"}
+        nm = info.names
+        it.env = {nm["line"]: line, nm["line_number"]: SInt(ln), nm["file_name"]: "f.emb", nm["tokens"]: tokens, nm["indent_stack"]: stack, nm["text"]: "unused"}
         c.covered = True
         returned = "no"
         try:
@@ -345,7 +382,8 @@ def target_final_dedents():
         marker = SRec("Token", {"symbol": "X", "text": "x", "source_location": None})
         tokens = [marker]
         it = pyvc.Interp(c, info)
-        it.env = {"tokens": tokens, "indent_stack": [GStr(z3.Int("l%d" % i), tag=("open", i)) for i in range(d)], "line_number": SInt(ln), "file_name": "f.emb"}
+        nm = info.names
+        it.env = {nm["tokens"]: tokens, nm["indent_stack"]: [GStr(z3.Int("l%d" % i), tag=("open", i)) for i in range(d)], nm["line_number"]: SInt(ln), nm["file_name"]: "f.emb"}
         c.covered = True
         returned = None
         try:
